@@ -79,7 +79,7 @@ def option_from_residual(it, args, callee):
     return NONE
 
 
-@pattern(r'^(std::option::)?Option::<.*>::unwrap$')
+@pattern(r'^(std::option::)?Option::<.*>::unwrap(::<.*>)?$')
 def option_unwrap(it, args, callee):
     o = args[0]
     if o.name == 'Some':
@@ -87,7 +87,7 @@ def option_unwrap(it, args, callee):
     it.panic('called `Option::unwrap()` on a `None` value')
 
 
-@pattern(r'^(std::option::)?Option::<.*>::expect$')
+@pattern(r'^(std::option::)?Option::<.*>::expect(::<.*>)?$')
 def option_expect(it, args, callee):
     o = args[0]
     if o.name == 'Some':
@@ -95,17 +95,17 @@ def option_expect(it, args, callee):
     it.panic('Option::expect failed')
 
 
-@pattern(r'^(std::option::)?Option::<.*>::is_none$')
+@pattern(r'^(std::option::)?Option::<.*>::is_none(::<.*>)?$')
 def option_is_none(it, args, callee):
     return deref_all(args[0]).name == 'None'
 
 
-@pattern(r'^(std::option::)?Option::<.*>::is_some$')
+@pattern(r'^(std::option::)?Option::<.*>::is_some(::<.*>)?$')
 def option_is_some(it, args, callee):
     return deref_all(args[0]).name == 'Some'
 
 
-@pattern(r'^(std::option::)?Option::<.*>::unwrap_or_default$')
+@pattern(r'^(std::option::)?Option::<.*>::unwrap_or_default(::<.*>)?$')
 def option_unwrap_or_default(it, args, callee):
     o = args[0]
     if o.name == 'Some':
@@ -131,13 +131,13 @@ def option_unwrap_or_else(it, args, callee):
     return it.call_callable(f, [])
 
 
-@pattern(r'^(std::option::)?Option::<.*>::unwrap_or$')
+@pattern(r'^(std::option::)?Option::<.*>::unwrap_or(::<.*>)?$')
 def option_unwrap_or(it, args, callee):
     o, d = args
     return o.f[0] if o.name == 'Some' else d
 
 
-@pattern(r'^(std::option::)?Option::<.*>::ok_or$')
+@pattern(r'^(std::option::)?Option::<.*>::ok_or(::<.*>)?$')
 def option_ok_or(it, args, callee):
     o, e = args
     return Ok(o.f[0]) if o.name == 'Some' else Err(e)
@@ -149,7 +149,7 @@ def option_ok_or_else(it, args, callee):
     return Ok(o.f[0]) if o.name == 'Some' else Err(it.call_callable(f, []))
 
 
-@pattern(r'^(std::result::)?Result::<.*>::unwrap$')
+@pattern(r'^(std::result::)?Result::<.*>::unwrap(::<.*>)?$')
 def result_unwrap(it, args, callee):
     r = args[0]
     if r.name == 'Ok':
@@ -159,7 +159,7 @@ def result_unwrap(it, args, callee):
     it.panic('called `Result::unwrap()` on an `Err` value')
 
 
-@pattern(r'^(std::result::)?Result::<.*>::expect$')
+@pattern(r'^(std::result::)?Result::<.*>::expect(::<.*>)?$')
 def result_expect(it, args, callee):
     r = args[0]
     if r.name == 'Ok':
@@ -167,17 +167,17 @@ def result_expect(it, args, callee):
     it.panic('Result::expect failed')
 
 
-@pattern(r'^(std::result::)?Result::<.*>::is_err$')
+@pattern(r'^(std::result::)?Result::<.*>::is_err(::<.*>)?$')
 def result_is_err(it, args, callee):
     return deref_all(args[0]).name == 'Err'
 
 
-@pattern(r'^(std::result::)?Result::<.*>::is_ok$')
+@pattern(r'^(std::result::)?Result::<.*>::is_ok(::<.*>)?$')
 def result_is_ok(it, args, callee):
     return deref_all(args[0]).name == 'Ok'
 
 
-@pattern(r'^(std::result::)?Result::<.*>::ok$')
+@pattern(r'^(std::result::)?Result::<.*>::ok(::<.*>)?$')
 def result_ok(it, args, callee):
     r = args[0]
     return Some(r.f[0]) if r.name == 'Ok' else NONE
@@ -207,7 +207,7 @@ def result_map(it, args, callee):
     return r
 
 
-@pattern(r'^(std::result::)?Result::<.*>::unwrap_or_default$')
+@pattern(r'^(std::result::)?Result::<.*>::unwrap_or_default(::<.*>)?$')
 def result_unwrap_or_default(it, args, callee):
     r = args[0]
     if r.name == 'Ok':
@@ -1275,3 +1275,94 @@ def fmt_format(it, args, callee):
     if callee.startswith('must_use'):
         return args[0]
     raise Unsupported('format! reached (message rendering is not modelled)')
+
+
+# =============================================================================== additions: normalize, checked shifts, TryFrom
+
+@model('rust_decimal::Decimal::normalize', 'Decimal::normalize')
+def dec_normalize(it, args, callee):
+    d = deref_all(args[0])
+    m, s = d.m, d.s
+    if not is_sym(m):
+        while s > 0 and m % 10 == 0:
+            m //= 10
+            s -= 1
+        if m == 0:
+            s = 0
+        return Dec(m, s)
+    # symbolic mantissa: strip trailing zeros digit by digit (forks at most `scale` times)
+    while s > 0 and it.truth(m % 10 == 0):
+        m = simp(m / 10)
+        s -= 1
+    return Dec(m, s)
+
+
+@pattern(r'^core::num::<impl (i8|i16|i32|i64|i128|isize|u8|u16|u32|u64|u128|usize)>::checked_(shl|shr)$')
+def int_checked_shift(it, args, callee):
+    m = re.match(r'^core::num::<impl (\w+)>::checked_(shl|shr)$', callee)
+    ty, op = m.group(1), m.group(2)
+    w, signed = INT_TYPES[ty]
+    a, n = args
+    inr = it.binop('Lt', n, w, 'u32')
+    if it.truth(inr):
+        return Some(it.binop('Shl' if op == 'shl' else 'Shr', a, n, ty))
+    return NONE
+
+
+@pattern(r'^core::num::<impl (i8|i16|i32|i64|i128|isize|u8|u16|u32|u64|u128|usize)>::checked_(add|sub|mul)$')
+def int_checked_arith(it, args, callee):
+    m = re.match(r'^core::num::<impl (\w+)>::checked_(add|sub|mul)$', callee)
+    ty, op = m.group(1), m.group(2)
+    r = it.binop({'add': 'AddWithOverflow', 'sub': 'SubWithOverflow', 'mul': 'MulWithOverflow'}[op], args[0], args[1], ty)
+    if it.truth(r.f[1]):
+        return NONE
+    return Some(r.f[0])
+
+
+@pattern(r'^<(i8|i16|i32|i64|i128|isize|u8|u16|u32|u64|u128|usize) as TryFrom<(i8|i16|i32|i64|i128|isize|u8|u16|u32|u64|u128|usize)>>::try_from$')
+def int_try_from(it, args, callee):
+    m = re.match(r'^<(\w+) as TryFrom<(\w+)>>::try_from$', callee)
+    to, frm = m.group(1), m.group(2)
+    tw, ts = INT_TYPES[to]
+    fw, fs = INT_TYPES[frm]
+    v = args[0]
+    lo = -(1 << (tw - 1)) if ts else 0
+    hi = (1 << (tw - 1)) - 1 if ts else (1 << tw) - 1
+    if not is_sym(v):
+        if lo <= v <= hi:
+            return Ok(norm_int(v, tw, ts))
+        return Err(Opaque('TryFromIntError'))
+    flo = -(1 << (fw - 1)) if fs else 0
+    fhi = (1 << (fw - 1)) - 1 if fs else (1 << fw) - 1
+    conds = []
+    if lo > flo:
+        c = z3.BitVecVal(lo & ((1 << fw) - 1), fw)
+        conds.append(v >= c if fs else z3.UGE(v, c))
+    if hi < fhi:
+        c = z3.BitVecVal(hi, fw)
+        conds.append(v <= c if fs else z3.ULE(v, c))
+    if not conds or it.truth(z3.And(conds)):
+        return Ok(it.cast('IntToInt', v, frm, to))
+    return Err(Opaque('TryFromIntError'))
+
+
+@pattern(r'^(std::option::)?Option::<.*>::and_then::<.*>$')
+def option_and_then(it, args, callee):
+    o, f = args
+    if o.name == 'Some':
+        return it.call_callable(f, [o.f[0]])
+    return NONE
+
+
+@pattern(r'^(core::)?char::methods::<impl char>::len_utf8$')
+def char_len_utf8(it, args, callee):
+    c = args[0]
+    if not is_sym(c):
+        return len(chr(c).encode('utf-8'))
+    if it.truth(z3.ULT(c, z3.BitVecVal(0x80, 32))):
+        return 1
+    if it.truth(z3.ULT(c, z3.BitVecVal(0x800, 32))):
+        return 2
+    if it.truth(z3.ULT(c, z3.BitVecVal(0x10000, 32))):
+        return 3
+    return 4
